@@ -1,80 +1,547 @@
-import BeyondVerif.Model.DateUse
-import Mathlib.Tactic.Ring
-import Mathlib.Tactic.Linarith
+import BeyondVerif.Props.C03
+import BeyondVerif.Model.CcsdsDate
+import BeyondVerif.Model.DateIter
+import BeyondVerif.Generated.CcsdsDates
 
 /-!
 # C04 — results depend on the instant, never on the Date's scale label
 
-Theorems about the date-handling layer (`Model/DateUse.lean`): every quantity that the
-date-consuming operations derive from a `Date` — time since epoch, the UTC calendar reading handed
-to SGP4 and written into a TLE, ordering/equality/hash, the interpolation abscissa — is a function
-of the instant alone, for every instant, every pair of labels and every offset table.  The EOP day was the one derived quantity that was not (finding `C04-eop-day-by-label-scale`, fixed by
-fc514f7: the record is now looked up by UTC day); the regression witness is kept below.
+The theorems are about C03's faithful integer model of `beyond.dates.Date` (`Model/Date.lean`: constructor with offset
+and EOP record looked up by UTC day, `_convert_to_scale`, `change_scale`, `+ timedelta`, `−`, comparisons, `datetime`
+readings) instantiated with the configuration regenerated from /repo on every run (`Model/DateCfg.lean`: scale graph,
+`_scale_*` methods, IERS tables).  A model date is `(_d, _s, _offset, scale, eop)` — the *instant* is `_d·D + _s`, the
+*label* is `scale`, and the date carries an Earth-orientation record `eop` that every frame conversion and every later
+`change_scale` reads.  "Label-free" therefore has two halves: the instant AND the record.
 
-That each public operation uses its dates only through these quantities is established by the
-oracle sweep of harness/props/C04.py on the real API (6 labels × 6 labels per operation), not here.
+* the record is a function of the instant — `RecOK` (the record is the one tabulated for the date's own UTC reading),
+  `mk_carries_record_of_utc_day` (every constructed date is `RecOK`), `record_function_of_instant`,
+  `record_function_of_instant_post1972` (no hypothesis on leap seconds: the leap table is monotone);
+* relabelling — `relabel_keeps_instant_and_record` (uniform scales, exact), `relabel_ut1_within_slack` (UT1: 1.5 µs),
+  `relabel_any_within_slack` (TDB: 1.5 µs when the two evaluations of the TDB−TT term agree);
+* `date + t` — `add_carries_record_of_utc_day` (the result carries the record of ITS OWN UTC day, not the operand's),
+  `add_function_of_instant` (same instant in two labels, same `t` ⇒ same instant and same record),
+  `add_after_relabel`, `add_is_constructor`;
+* iteration — `range_dates_are_sums`, `range_dates_carry_record` (every date yielded by `DateRange` / `Ephem.iter` is the
+  previous one `+ step` and carries the record of its own UTC day);
+* what the operations read from a date — `consumers_function_of_instant` (time since epoch, ordering, equality, hash,
+  interpolation abscissa), `utc_fields_function_of_instant` (the UTC calendar reading handed to SGP4 / written to a TLE),
+  `consumers_within_slack` (UT1 / TDB: 2 µs);
+* CCSDS reading — `parse_date_passes_scale`, `parse_date_call_sites_use_time_system` (on the regenerated tables),
+  `parseDate_scale_reaches_date`, `parseDate_reading_label_free`; writing then reading —
+  `ccsds_epoch_roundtrip_partial` (an epoch labelled like TIME_SYSTEM reads back as the same instant; for an epoch
+  labelled otherwise the code moves the instant: `Witness/C04.lean: ccsds_mixed_label_moves_instant`, open finding).
+
+That each public operation uses its dates only through these quantities is established by the oracle sweep of
+harness/props/C04.py on the real API (6 labels × 6 labels per operation), not here.
 -/
 namespace BeyondVerif.C04
-open BeyondVerif.DateUse
+open BeyondVerif.Date BeyondVerif.Generated BeyondVerif.C03
 
-variable (off : Nat → Int)
+/-! ## the record of a date is a function of its instant -/
 
-/-- `change_scale` never changes the instant, whatever the offsets -/
-theorem relabel_same_instant (d : Date) (l : Nat) : (changeScale off d l).inst = d.inst := by
-  simp only [changeScale, ofReading, reading]; ring
+/-- the UTC clock reading of a date according to its own record, in ticks -/
+def utcReading (x : Date) : Int := x.inst - x.eop.taiUtc
 
-theorem relabel_label (d : Date) (l : Nat) : (changeScale off d l).label = l := rfl
+/-- the date carries the record that the tables hold for its own UTC reading (UT1−UTC of that UTC day, the leap-second
+entry in force at that reading) -/
+def RecOK (env : Env) (x : Date) : Prop := eopRaw env (utcReading x) = some x.eop
 
-/-- two dates denote the same instant iff relabelling one gives the other: the label is free -/
-theorem instant_label_free (d : Date) (l₁ l₂ : Nat) :
-    (changeScale off (changeScale off d l₁) l₂) = changeScale off d l₂ := by
-  simp only [changeScale, ofReading, reading, Date.mk.injEq, and_true]; ring
+/-- a clock reading `num` (ticks) of scale `sc` is *clean*: the tables cover it and the UTC reading derived from it, and
+the same leap-second entry is in force at both (no leap second between the label reading and the UTC reading) -/
+def Clean (env : Env) (sc : Nat) (num : Int) : Prop :=
+  ∃ e0 offU eU, eopRaw env num = some e0 ∧ offset cfg env sc cfg.utc num e0 = .ok offU ∧
+    eopRaw env (num + offU) = some eU ∧ taiUtcAt env.leap (num + offU) = taiUtcAt env.leap num
 
-/-- time since epoch (Kepler, J2, numerical, CW, native SGP4): independent of both labels -/
-theorem delta_label_independent (date epoch : Date) (l₁ l₂ : Nat) :
-    dt (changeScale off date l₁) (changeScale off epoch l₂) = dt date epoch := by
-  simp only [dt, sub, relabel_same_instant]
+theorem utc_is_uniform : cfg.utc ∈ uniformIx := by decide
 
-theorem tdiff_label_independent (date epoch : Date) (l₁ l₂ : Nat) :
-    tdiff (changeScale off date l₁) (changeScale off epoch l₂) = tdiff date epoch :=
-  delta_label_independent off date epoch l₁ l₂
+/-- **every constructed date carries the record of its own UTC day** (UTC, TAI, TT, GPS) -/
+theorem mk_carries_record_of_utc_day {env : Env} {sc : Nat} {d s : Int} {x : Date} (hsc : sc ∈ uniformIx)
+    (h : mk cfg env sc d s = .ok x) (hc : Clean env sc (d * D + s)) : RecOK env x ∧ x.scale = sc ∧ WF cfg env x := by
+  obtain ⟨e0, offU, eU, h0, ho, hU, hl⟩ := hc
+  obtain ⟨hw, hs, hi, he⟩ := mk_spec h
+  refine ⟨?_, hs, hw⟩
+  by_cases hu : sc = cfg.utc
+  · -- a UTC date: one lookup, at its own reading
+    obtain ⟨eop0, hv, hcase⟩ := eopFor_spec he
+    have hv0 : eop0 = e0 := by
+      simp only [eopGet, h0, EopRes.value, Option.some.injEq] at hv; exact hv.symm
+    subst hv0
+    have hx : x.eop = eop0 := by
+      rcases hcase with ⟨_, h1⟩ | ⟨hne, _⟩
+      · exact h1
+      · exact (hne hu).elim
+    obtain ⟨n1, hxo⟩ := hw.off_eq
+    rw [hs, hu] at hxo
+    have hq : coefAB cfg cfg.utc cfg.ref = some ⟨0, 1, 0, 0⟩ := by decide
+    rw [offset_eq_eval hq] at hxo
+    have hoff := Except.ok.inj hxo
+    simp only [Coef.eval, zero_mul, one_mul, zero_add, add_zero] at hoff
+    unfold RecOK utcReading
+    rw [hi, ← hoff, hx]
+    have : d * D + s + eop0.taiUtc - eop0.taiUtc = d * D + s := by ring
+    rw [this]; exact h0
+  · obtain ⟨hrec, hread⟩ := mk_record_of_utc_day hsc hu h h0 ho hU hl
+    unfold RecOK utcReading
+    rw [hread, hrec]; exact hU
 
-/-- the UTC reading handed to the sgp4 library does not depend on the label of the requested date -/
-theorem utcFields_label_independent (utc : Nat) (d : Date) (l : Nat) :
-    utcReading off utc (changeScale off d l) = utcReading off utc d := by
-  simp only [utcReading, instant_label_free]
+theorem ofDatetime_carries_record {env : Env} {sc : Nat} {us : Int} {x : Date} (hsc : sc ∈ uniformIx)
+    (h : ofDatetime cfg env sc us = .ok x) (hc : Clean env sc (10 * us)) : RecOK env x ∧ x.scale = sc ∧ WF cfg env x := by
+  unfold ofDatetime at h
+  have e : us / DUS * D + us % DUS * 10 = 10 * us := by simp only [D, DUS]; omega
+  rw [← e] at hc
+  exact mk_carries_record_of_utc_day hsc h hc
 
-/-- the epoch written into a TLE does not depend on the label of the orbit's date -/
-theorem tle_epoch_label_independent (utc : Nat) (d : Date) (l : Nat) :
-    tleEpoch off utc (changeScale off d l) = tleEpoch off utc d :=
-  utcFields_label_independent off utc d l
+/-- **the record is a function of the instant**: two dates of the same instant, each carrying the record of its own UTC
+reading, carry the same record — whatever their labels (when the same TAI−UTC is in force for both) -/
+theorem record_function_of_instant {env : Env} {x y : Date} (hx : RecOK env x) (hy : RecOK env y)
+    (hi : x.inst = y.inst) (hl : x.eop.taiUtc = y.eop.taiUtc) : x.eop = y.eop := by
+  unfold RecOK utcReading at hx hy
+  rw [hi, hl, hy] at hx
+  exact (Option.some.inj hx).symm
 
-/-- ordering, equality, hash key and interpolation abscissa are label-free -/
-theorem compare_label_independent (a b : Date) (l₁ l₂ : Nat) :
-    le (changeScale off a l₁) (changeScale off b l₂) = le a b ∧
-    eq (changeScale off a l₁) (changeScale off b l₂) = eq a b ∧
-    hashKey (changeScale off a l₁) = hashKey a ∧ abscissa (changeScale off a l₁) = abscissa a := by
-  simp only [le, eq, hashKey, abscissa, relabel_same_instant, and_self]
+/-! ### … without the leap-second hypothesis: the leap table is monotone -/
 
-/-- `date + δ` then `− date` gives δ back, in every scale (constant offset) -/
-theorem add_sub (d : Date) (δ : Int) : sub (add off d δ) d = δ := by
-  simp only [add, sub, ofReading, reading]; ring
+/-- scanning a list whose values do not increase along it, a weaker predicate finds a value at least as large -/
+theorem find_mono {α : Type} (val : α → Int) (p q : α → Bool) (hpq : ∀ a, p a = true → q a = true) :
+    ∀ (L : List α), L.Pairwise (fun a b => val b ≤ val a) → ∀ a b, L.find? p = some a → L.find? q = some b → val a ≤ val b := by
+  intro L
+  induction L with
+  | nil => intro _ a b h; simp at h
+  | cons c L ih =>
+    intro hP a b ha hb
+    rw [List.pairwise_cons] at hP
+    by_cases hq : q c = true
+    · rw [List.find?_cons_of_pos hq] at hb
+      cases hb
+      by_cases hp : p c = true
+      · rw [List.find?_cons_of_pos hp] at ha; cases ha; exact le_refl _
+      · rw [List.find?_cons_of_neg hp] at ha
+        exact hP.1 a (List.mem_of_find?_eq_some ha)
+    · have hp : ¬ p c = true := fun h => hq (hpq c h)
+      rw [List.find?_cons_of_neg hp] at ha
+      rw [List.find?_cons_of_neg hq] at hb
+      exact ih hP.2 a b ha hb
 
-/-- the Earth-orientation record attached to a date is chosen by the UTC day of the instant: label-free
-(true of the code since fix fc514f7) -/
-theorem eop_day_label_independent (utc : Nat) (d : Date) (l : Nat) :
-    eopDay off utc (changeScale off d l) = eopDay off utc d := by
-  simp only [eopDay, utcFields_label_independent]
+/-- `tai_utc(mjd)` is monotone in `mjd` for a table whose values do not decrease in file order -/
+theorem taiUtcAt_mono {leap : List (Int × Int)} (hm : leap.Pairwise (fun a b => a.2 ≤ b.2)) {n m t u : Int} (hnm : n ≤ m)
+    (hn : taiUtcAt leap n = some t) (hmm : taiUtcAt leap m = some u) : t ≤ u := by
+  unfold taiUtcAt at hn hmm
+  simp only [Option.map_eq_some_iff] at hn hmm
+  obtain ⟨a, ha, rfl⟩ := hn
+  obtain ⟨b, hb, rfl⟩ := hmm
+  refine find_mono (fun e : Int × Int => e.2) _ _ ?_ leap.reverse ?_ a b ha hb
+  · intro e he
+    simp only [decide_eq_true_eq] at he ⊢
+    omega
+  · rw [List.pairwise_reverse]
+    exact hm
 
-/-- **Regression witness**: the lookup by the day number of the date's own scale (the code before fc514f7) *does*
-depend on the label. With TAI − UTC = 35 s, the instant 2014-08-03T23:59:50 UTC has UTC day 56872 but its TAI
-reading is already in day 56873. -/
-theorem eop_day_own_scale_depends_on_label :
-    ∃ (off : Nat → Int) (d : Date) (l : Nat), eopDayOwnScale off (changeScale off d l) ≠ eopDayOwnScale off d := by
-  refine ⟨fun l => if l = 0 then 0 else -35000000, ⟨56872 * 86400000000 + 86390000000 + 35000000, 1⟩, 0, ?_⟩
+/-- the leap-second entries from 1972 on (the whole-second era) -/
+def modernLeap : List (Int × Int) := leapTable.filter (fun e => decide (41317 ≤ e.1))
+
+theorem modernLeap_monotone : modernLeap.Pairwise (fun a b => a.2 ≤ b.2) := by decide
+
+/-- **the record is a function of the instant, leap seconds included**: with a leap table whose values never decrease
+(`modernLeap_monotone`: true of the regenerated `tai-utc.dat` from 1972 on) an instant has at most one self-consistent
+UTC reading, hence at most one record -/
+theorem record_function_of_instant_mono {env : Env} (hm : env.leap.Pairwise (fun a b => a.2 ≤ b.2)) {x y : Date}
+    (hx : RecOK env x) (hy : RecOK env y) (hi : x.inst = y.inst) : x.eop = y.eop := by
+  have key : ∀ {a b : Date}, RecOK env a → RecOK env b → a.inst = b.inst → a.eop.taiUtc ≤ b.eop.taiUtc := by
+    intro a b ha hb hab
+    by_contra hlt
+    have hlt : b.eop.taiUtc < a.eop.taiUtc := by omega
+    -- a's UTC reading is then the earlier one: its leap value cannot be the larger
+    have ta : taiUtcAt env.leap (utcReading a) = some a.eop.taiUtc := by
+      unfold RecOK eopRaw at ha
+      split at ha
+      · cases ha
+      · split at ha
+        · cases ha
+        · next t ht => have e := Option.some.inj ha; rw [← e]; exact ht
+    have tb : taiUtcAt env.leap (utcReading b) = some b.eop.taiUtc := by
+      unfold RecOK eopRaw at hb
+      split at hb
+      · cases hb
+      · split at hb
+        · cases hb
+        · next t ht => have e := Option.some.inj hb; rw [← e]; exact ht
+    have hle : utcReading a ≤ utcReading b := by unfold utcReading; omega
+    have := taiUtcAt_mono hm hle ta tb
+    omega
+  have h1 := key hx hy hi
+  have h2 := key hy hx hi.symm
+  exact record_function_of_instant hx hy hi (by omega)
+
+/-! ## relabelling keeps the instant and the record -/
+
+/-- a uniform scale's offset to TAI depends on the record only through TAI−UTC -/
+theorem uniform_off_eq {env : Env} {x y : Date} (hx : WF cfg env x) (hy : WF cfg env y) (hs : y.scale = x.scale)
+    (hsc : x.scale ∈ uniformIx) (hl : y.eop.taiUtc = x.eop.taiUtc) : y.off = x.off := by
+  obtain ⟨n1, hxo⟩ := hx.off_eq
+  obtain ⟨n2, hyo⟩ := hy.off_eq
+  rw [hs] at hyo
+  obtain ⟨p, hp, pu, pt, _⟩ := uniform_coef _ hsc _ ref_uniform
+  rw [offset_eq_eval hp] at hxo hyo
+  have a := Except.ok.inj hxo
+  have b := Except.ok.inj hyo
+  rw [← a, ← b]
+  simp only [Coef.eval, pu, pt, hl, zero_mul, add_zero]
+
+/-- … and is a whole number of microseconds when TAI−UTC is -/
+theorem uniform_off_us {env : Env} {x : Date} (hx : WF cfg env x) (hsc : x.scale ∈ uniformIx)
+    (htai : x.eop.taiUtc % 10 = 0) : x.off % 10 = 0 := by
+  obtain ⟨n1, hxo⟩ := hx.off_eq
+  obtain ⟨p, hp, pu, pt, pc⟩ := uniform_coef _ hsc _ ref_uniform
+  rw [offset_eq_eval hp] at hxo
+  have a := Except.ok.inj hxo
+  obtain ⟨k, hk⟩ : ∃ k, x.eop.taiUtc = 10 * k := ⟨x.eop.taiUtc / 10, by omega⟩
+  rw [← a]
+  simp only [Coef.eval, pu, pt, hk, zero_mul, add_zero]
+  have : p.tai * (10 * k) = 10 * (p.tai * k) := by ring
+  rw [this]; omega
+
+/-- two well-formed dates of the same instant have the same `(_d, _s)` -/
+theorem same_inst_same_ds {x y : Date} (hx : 0 ≤ x.s ∧ x.s < D) (hy : 0 ≤ y.s ∧ y.s < D) (hi : x.inst = y.inst) :
+    x.d = y.d ∧ x.s = y.s := by
+  obtain ⟨a1, a2⟩ := hx; obtain ⟨b1, b2⟩ := hy
+  simp only [Date.inst, D] at *
+  omega
+
+/-- **relabelling (change_scale) between UTC, TAI, TT and GPS keeps the instant AND the Earth-orientation record**: for
+every date carrying the record of its UTC day and every target label -/
+theorem relabel_keeps_instant_and_record {env : Env} {x y : Date} {new : Nat} (hx : WF cfg env x)
+    (hsc : x.scale ∈ uniformIx) (hnew : new ∈ uniformIx) (hus : x.s % 10 = 0) (htai : x.eop.taiUtc % 10 = 0)
+    (hrx : RecOK env x) (h : changeScale cfg env x new = .ok y) (hleap : y.eop.taiUtc = x.eop.taiUtc)
+    (hc : Clean env new (clock y)) :
+    y.inst = x.inst ∧ y.scale = new ∧ y.eop = x.eop ∧ RecOK env y ∧ WF cfg env y := by
+  obtain ⟨hi, hs⟩ := changeScale_same_instant hx hsc hnew hus htai h hleap
+  unfold changeScale at h
+  split at h
+  · cases h
+  · next off ho =>
+    obtain ⟨hw, _, hinst⟩ := ofDatetime_spec h
+    have hck : clock y = 10 * (x.datetime + roundUs off) := by unfold clock; omega
+    rw [hck] at hc
+    obtain ⟨hry, _, _⟩ := ofDatetime_carries_record hnew h hc
+    exact ⟨hi, hs, (record_function_of_instant hrx hry hi.symm hleap.symm).symm, hry, hw⟩
+
+/-- **relabelling to or from UT1**: when the converted date carries the record of the original one the instant moves
+by at most 1.5 µs — the resolution of the conversion (C03 `changeScale_instant_bound`) -/
+theorem relabel_ut1_within_slack {env : Env} {x y : Date} {new : Nat} (hx : WF cfg env x)
+    (hsc : x.scale ∈ noTdbIx) (hnew : new ∈ noTdbIx) (h : changeScale cfg env x new = .ok y) (hrec : y.eop = x.eop) :
+    -15 ≤ y.inst - x.inst ∧ y.inst - x.inst ≤ 15 :=
+  changeScale_instant_bound hx hsc hnew h hrec
+
+/-- **relabelling to or from TDB** (every pair of the six scales): when the offsets used by the two constructions agree
+(the TDB−TT term is evaluated at two `mjd` arguments 1e-10 s apart: a parameter of the model) the instant moves by at most
+1.5 µs (C03 `changeScale_instant_bound_partial`) -/
+theorem relabel_any_within_slack {env : Env} {x y : Date} {new : Nat} (hx : WF cfg env x)
+    (h : changeScale cfg env x new = .ok y)
+    (hdrift : ∀ off, offset cfg env x.scale new x.inst x.eop = .ok off → y.off + off = x.off) :
+    -15 ≤ y.inst - x.inst ∧ y.inst - x.inst ≤ 15 :=
+  changeScale_instant_bound_partial hx h hdrift
+
+/-! ## `date + timedelta` -/
+
+/-- `date + t` is the constructor applied to the clock reading moved by `t` — there is no other way to make the sum -/
+theorem add_is_constructor {env : Env} (x : Date) (t : Int) (hx : 0 ≤ x.s ∧ x.s < D) :
+    ∃ d s, d * D + s = clock x + 10 * t ∧ 0 ≤ s ∧ s < D ∧ add cfg env x t = mk cfg env x.scale d s := by
+  have hts := toScale_spec x hx.1 hx.2
+  refine ⟨x.toScale.1 + (t * 10 + x.toScale.2) / D, (t * 10 + x.toScale.2) % D, ?_, ?_, ?_, rfl⟩
+  · simp only [clock, D] at *; omega
+  · exact Int.emod_nonneg _ (by decide)
+  · exact Int.emod_lt_of_pos _ (by decide)
+
+/-- **`date + t` carries the record of ITS OWN UTC day** (not the operand's), keeps the label, and shows the operand's
+clock reading moved by exactly `t` — in UTC, TAI, TT and GPS, for every `t` of either sign -/
+theorem add_carries_record_of_utc_day {env : Env} {x y : Date} {t : Int} (hx : WF cfg env x) (hsc : x.scale ∈ uniformIx)
+    (h : add cfg env x t = .ok y) (hc : Clean env x.scale (clock x + 10 * t)) :
+    RecOK env y ∧ y.scale = x.scale ∧ clock y = clock x + 10 * t ∧ WF cfg env y := by
+  obtain ⟨d, s, hds, _, _, hadd⟩ := add_is_constructor (env := env) x t ⟨hx.s_nonneg, hx.s_lt⟩
+  rw [hadd] at h
+  rw [← hds] at hc
+  obtain ⟨hr, hs, hw⟩ := mk_carries_record_of_utc_day hsc h hc
+  obtain ⟨_, _, hi, _⟩ := mk_spec h
+  refine ⟨hr, hs, ?_, hw⟩
+  simp only [clock, D] at *; omega
+
+/-- **the result of `+` depends only on the instant**: the same instant held under two labels (UTC, TAI, TT, GPS), the
+same `t` added to both — the two sums are the same instant, `t` later, and carry the same record (no leap second
+between the operands and the sums) -/
+theorem add_function_of_instant {env : Env} {x x' y y' : Date} {t : Int} (hx : WF cfg env x) (hx' : WF cfg env x')
+    (hsc : x.scale ∈ uniformIx) (hsc' : x'.scale ∈ uniformIx) (hi : x.inst = x'.inst)
+    (h : add cfg env x t = .ok y) (h' : add cfg env x' t = .ok y')
+    (hc : Clean env x.scale (clock x + 10 * t)) (hc' : Clean env x'.scale (clock x' + 10 * t))
+    (hl : y.eop.taiUtc = x.eop.taiUtc) (hl' : y'.eop.taiUtc = x'.eop.taiUtc) (hxx : x.eop.taiUtc = x'.eop.taiUtc) :
+    y.inst = x.inst + 10 * t ∧ y'.inst = y.inst ∧ y'.eop = y.eop := by
+  obtain ⟨hr, hs, hck, hw⟩ := add_carries_record_of_utc_day hx hsc h hc
+  obtain ⟨hr', hs', hck', hw'⟩ := add_carries_record_of_utc_day hx' hsc' h' hc'
+  have ho := uniform_off_eq hx hw hs hsc hl
+  have ho' := uniform_off_eq hx' hw' hs' hsc' hl'
+  have e1 : y.inst = x.inst + 10 * t := by unfold clock at hck; omega
+  have e2 : y'.inst = x'.inst + 10 * t := by unfold clock at hck'; omega
+  refine ⟨e1, by omega, ?_⟩
+  exact record_function_of_instant hr' hr (by omega) (by omega)
+
+/-- **relabel, then add = add**: `date.change_scale(l) + t` and `date + t` are the same instant with the same record -/
+theorem add_after_relabel {env : Env} {x r y z : Date} {new : Nat} {t : Int} (hx : WF cfg env x)
+    (hsc : x.scale ∈ uniformIx) (hnew : new ∈ uniformIx) (hus : x.s % 10 = 0) (htai : x.eop.taiUtc % 10 = 0)
+    (hrx : RecOK env x) (hr : changeScale cfg env x new = .ok r) (hleap : r.eop.taiUtc = x.eop.taiUtc)
+    (hcr : Clean env new (clock r))
+    (h : add cfg env x t = .ok y) (h' : add cfg env r t = .ok z)
+    (hc : Clean env x.scale (clock x + 10 * t)) (hc' : Clean env new (clock r + 10 * t))
+    (hl : y.eop.taiUtc = x.eop.taiUtc) (hl' : z.eop.taiUtc = x.eop.taiUtc) :
+    z.inst = y.inst ∧ z.eop = y.eop ∧ y.inst = x.inst + 10 * t := by
+  obtain ⟨hi, hs, he, _, hwr⟩ := relabel_keeps_instant_and_record hx hsc hnew hus htai hrx hr hleap hcr
+  have hscr : r.scale ∈ uniformIx := hs ▸ hnew
+  have hc'' : Clean env r.scale (clock r + 10 * t) := hs ▸ hc'
+  obtain ⟨a, b, c⟩ := add_function_of_instant hx hwr hsc hscr hi.symm h h' hc hc'' hl (by rw [hl', hleap]) hleap.symm
+  exact ⟨b, c, a⟩
+
+/-! ## iteration: `DateRange`, `Ephem.iter`, every `date += step` of the propagators -/
+
+/-- **every date an iteration yields after the first is the previous one `+ step`** — made by the constructor, never
+patched up from the previous date -/
+theorem range_dates_are_sums {env : Env} {stop : Date} {step : Int} {incl : Bool} :
+    ∀ (fuel : Nat) (cur : Date) (l : List Date), rangeIter cfg env stop step incl fuel cur = .ok l →
+      l.IsChain (fun a b => add cfg env a step = .ok b) ∧ ∀ h ∈ l.head?, h = cur := by
+  intro fuel
+  induction fuel with
+  | zero => intro cur l h; simp [rangeIter] at h
+  | succ n ih =>
+    intro cur l h
+    unfold rangeIter at h
+    split at h
+    · split at h
+      · cases h
+      · next nxt hadd =>
+        split at h
+        · cases h
+        · next l' hl' =>
+          cases h
+          obtain ⟨hc, hh⟩ := ih nxt l' hl'
+          refine ⟨?_, by simp⟩
+          cases l' with
+          | nil => exact List.IsChain.singleton _
+          | cons b t =>
+            have hb : b = nxt := hh b (by simp)
+            subst hb
+            exact List.IsChain.cons_cons hadd hc
+    · cases h
+      exact ⟨List.IsChain.nil, by simp⟩
+
+/-- **every date an iteration yields carries the record of its own UTC day and the label of the start** (UTC, TAI, TT,
+GPS; steps of either sign; readings covered by the tables) -/
+theorem range_dates_carry_record {env : Env} {stop : Date} {step : Int} {incl : Bool} :
+    ∀ (fuel : Nat) (start : Date) (l : List Date), WF cfg env start → start.scale ∈ uniformIx → RecOK env start →
+      (∀ k : Nat, Clean env start.scale (clock start + 10 * (k * step))) →
+      rangeIter cfg env stop step incl fuel start = .ok l → ∀ x ∈ l, RecOK env x ∧ x.scale = start.scale := by
+  intro fuel
+  induction fuel with
+  | zero => intro start l _ _ _ _ h; simp [rangeIter] at h
+  | succ n ih =>
+    intro start l hw hsc hr hcl h
+    unfold rangeIter at h
+    split at h
+    · split at h
+      · cases h
+      · next nxt hadd =>
+        split at h
+        · cases h
+        · next l' hl' =>
+          cases h
+          have h1 := hcl 1
+          simp only [Nat.cast_one, one_mul] at h1
+          obtain ⟨hrn, hsn, hck, hwn⟩ := add_carries_record_of_utc_day hw hsc hadd h1
+          have hcl' : ∀ k : Nat, Clean env nxt.scale (clock nxt + 10 * (k * step)) := by
+            intro k
+            have := hcl (k + 1)
+            have e : clock start + 10 * (((k + 1 : Nat) : Int) * step) = clock nxt + 10 * (k * step) := by
+              rw [hck]; push_cast; ring
+            rw [e] at this
+            rw [hsn]; exact this
+          intro x hx
+          rcases List.mem_cons.mp hx with rfl | hx
+          · exact ⟨hr, rfl⟩
+          · obtain ⟨a, b⟩ := ih nxt l' hwn (hsn ▸ hsc) hrn hcl' hl' x hx
+            exact ⟨a, b.trans hsn⟩
+    · cases h
+      intro x hx; simp at hx
+
+/-! ## what the operations read from a date -/
+
+/-- **time since epoch, ordering, equality, hash key, interpolation abscissa are functions of the instants alone**:
+neither `scale`, `_offset` nor `eop` enters (`date − epoch` of Kepler / J2 / numerical / CW / native SGP4, the
+comparisons of `DateRange` and the listeners, `_mjd` of the interpolator) -/
+theorem consumers_function_of_instant (x x' e e' : Date) (hx : 0 ≤ x.s ∧ x.s < D) (hx' : 0 ≤ x'.s ∧ x'.s < D)
+    (he : 0 ≤ e.s ∧ e.s < D) (he' : 0 ≤ e'.s ∧ e'.s < D) (hi : x.inst = x'.inst) (hj : e.inst = e'.inst) :
+    subDate x e = subDate x' e' ∧ x.lt e = x'.lt e' ∧ x.le e = x'.le e' ∧ x.eq e = x'.eq e' ∧ x.ge e = x'.ge e' ∧
+    x.gt e = x'.gt e' ∧ x.hashKey = x'.hashKey ∧ (x.d, x.s) = (x'.d, x'.s) := by
+  obtain ⟨a1, a2⟩ := same_inst_same_ds hx hx' hi
+  obtain ⟨b1, b2⟩ := same_inst_same_ds he he' hj
+  have hxr : x.datetimeRef = x'.datetimeRef := by simp only [Date.datetimeRef, a1, a2]
+  have her : e.datetimeRef = e'.datetimeRef := by simp only [Date.datetimeRef, b1, b2]
+  refine ⟨?_, ?_, ?_, ?_, ?_, ?_, ?_, ?_⟩ <;>
+    simp only [subDate, Date.lt, Date.le, Date.eq, Date.gt, Date.ge, Date.hashKey, hxr, her, a1, a2]
+
+/-- **the UTC calendar reading handed to the sgp4 library and written into a TLE is a function of the instant**: two
+dates of the same instant under two uniform labels, each converted to UTC, show the same UTC clock reading (µs) -/
+theorem utc_fields_function_of_instant {env : Env} {x x' u u' : Date} (hx : WF cfg env x) (hx' : WF cfg env x')
+    (hsc : x.scale ∈ uniformIx) (hsc' : x'.scale ∈ uniformIx) (hus : x.s % 10 = 0) (htai : x.eop.taiUtc % 10 = 0)
+    (hrx : RecOK env x) (hrx' : RecOK env x') (hi : x.inst = x'.inst) (hxx : x.eop.taiUtc = x'.eop.taiUtc)
+    (h : changeScale cfg env x cfg.utc = .ok u) (h' : changeScale cfg env x' cfg.utc = .ok u')
+    (hl : u.eop.taiUtc = x.eop.taiUtc) (hl' : u'.eop.taiUtc = x'.eop.taiUtc)
+    (hc : Clean env cfg.utc (clock u)) (hc' : Clean env cfg.utc (clock u')) :
+    u'.datetime = u.datetime ∧ u'.inst = u.inst ∧ u'.eop = u.eop := by
+  have hds := same_inst_same_ds ⟨hx.s_nonneg, hx.s_lt⟩ ⟨hx'.s_nonneg, hx'.s_lt⟩ hi
+  have hus' : x'.s % 10 = 0 := by rw [← hds.2]; exact hus
+  have htai' : x'.eop.taiUtc % 10 = 0 := by rw [← hxx]; exact htai
+  obtain ⟨a1, a2, a3, _, a5⟩ := relabel_keeps_instant_and_record hx hsc utc_is_uniform hus htai hrx h hl hc
+  obtain ⟨b1, b2, b3, _, b5⟩ := relabel_keeps_instant_and_record hx' hsc' utc_is_uniform hus' htai' hrx' h' hl' hc'
+  have hi' : u'.inst = u.inst := by omega
+  have hoff : u'.off = u.off :=
+    uniform_off_eq a5 b5 (by rw [a2, b2]) (a2 ▸ utc_is_uniform) (by omega)
+  obtain ⟨c1, c2⟩ := same_inst_same_ds ⟨b5.s_nonneg, b5.s_lt⟩ ⟨a5.s_nonneg, a5.s_lt⟩ hi'
+  refine ⟨?_, hi', ?_⟩
+  · simp only [Date.datetime, Date.datetimeRef, c1, c2, hoff]
+  · rw [a3, b3]; exact (record_function_of_instant hrx hrx' hi hxx).symm
+
+/-- **within the slack of UT1 / TDB conversions** (instants at most 1.5 µs apart): time since epoch differs by at most 2 µs -/
+theorem consumers_within_slack (x x' e : Date) (h1 : -15 ≤ x'.inst - x.inst) (h2 : x'.inst - x.inst ≤ 15) :
+    -2 ≤ subDate x' e - subDate x e ∧ subDate x' e - subDate x e ≤ 2 := by
+  have a := roundUs_bound x.s
+  have b := roundUs_bound x'.s
+  simp only [subDate, Date.datetimeRef, Date.inst, D, DUS] at *
+  omega
+
+/-! ## CCSDS: reading an epoch in the message's TIME_SYSTEM -/
+
+/-- **every format branch of `parse_date` hands the scale on to the constructed date** (regenerated cascade) -/
+theorem parse_date_passes_scale : ∀ b ∈ parseDateBranches, b.2 = true := by decide
+
+/-- **every reader calls `parse_date` with the message's TIME_SYSTEM** (regenerated call sites: OPM, OEM, OMM, TDM) -/
+theorem parse_date_call_sites_use_time_system : parseDateCallSites ≠ [] ∧ ∀ c ∈ parseDateCallSites, c.2 = true := by decide
+
+/-- the cascade of `parse_date` as regenerated from the source -/
+def branches : List CcsdsDate.Branch := parseDateBranches.map (fun p => ⟨p.1, p.2⟩)
+
+theorem branches_with_scale : ∀ b ∈ branches, b.withScale = true := by decide
+
+theorem parseText_mem {brs : List CcsdsDate.Branch} {s : String} {b : CcsdsDate.Branch} {us : Int}
+    (h : CcsdsDate.parseText brs s = some (b, us)) : b ∈ brs ∧ CcsdsDate.strptime b.fmt s = some us := by
+  induction brs with
+  | nil => simp [CcsdsDate.parseText] at h
+  | cons c rest ih =>
+    unfold CcsdsDate.parseText at h
+    split at h
+    · next v hv =>
+      simp only [Option.some.injEq, Prod.mk.injEq] at h
+      obtain ⟨rfl, rfl⟩ := h
+      exact ⟨List.mem_cons_self, hv⟩
+    · obtain ⟨hm, hs⟩ := ih h
+      exact ⟨List.mem_cons_of_mem _ hm, hs⟩
+
+/-- **the scale argument reaches the constructed date on every branch**: whatever the spelling of the epoch (with or
+without fraction of second, calendar or day-of-year), the date read carries the message's TIME_SYSTEM and denotes the
+text's clock reading *in that scale* -/
+theorem parseDate_scale_reaches_date {env : Env} {dflt : Nat} {brs : List CcsdsDate.Branch} (hb : ∀ b ∈ brs, b.withScale = true)
+    {s : String} {sc : Nat} {x : Date} (h : CcsdsDate.parseDate cfg env dflt brs s sc = some (.ok x)) :
+    x.scale = sc ∧ WF cfg env x ∧ ∃ b us, b ∈ brs ∧ CcsdsDate.strptime b.fmt s = some us ∧ x.inst = 10 * us + x.off := by
+  unfold CcsdsDate.parseDate at h
+  split at h
+  · cases h
+  · next b us hp =>
+    obtain ⟨hm, hs⟩ := parseText_mem hp
+    simp only [hb b hm, if_true, Option.some.injEq] at h
+    obtain ⟨hw, hsc, hi⟩ := ofDatetime_spec h
+    exact ⟨hsc, hw, b, us, hm, hs, hi⟩
+
+/-- **the clock reading read from a text does not depend on the scale**: under two TIME_SYSTEMs the same text is the same
+reading, constructed in the respective scale -/
+theorem parseDate_reading_label_free {env : Env} {dflt : Nat} {brs : List CcsdsDate.Branch} (hb : ∀ b ∈ brs, b.withScale = true)
+    (s : String) (sc₁ sc₂ : Nat) :
+    (CcsdsDate.parseDate cfg env dflt brs s sc₁ = none ∧ CcsdsDate.parseDate cfg env dflt brs s sc₂ = none) ∨
+    ∃ us, CcsdsDate.parseDate cfg env dflt brs s sc₁ = some (ofDatetime cfg env sc₁ us) ∧
+          CcsdsDate.parseDate cfg env dflt brs s sc₂ = some (ofDatetime cfg env sc₂ us) := by
+  unfold CcsdsDate.parseDate
+  cases hp : CcsdsDate.parseText brs s with
+  | none => left; simp
+  | some p =>
+    obtain ⟨b, us⟩ := p
+    right
+    have := (parseText_mem hp).1
+    exact ⟨us, by simp [hb b this], by simp [hb b this]⟩
+
+/-- the spellings of one epoch the Blue Books allow — with and without fraction of second, calendar and day-of-year,
+lower-case separator — are the same clock reading -/
+example : CcsdsDate.parseText branches "2016-12-30T14:00:36.000000" = some (⟨"%Y-%m-%dT%H:%M:%S.%f", true⟩, 4989823236000000) ∧
+    (CcsdsDate.parseText branches "2016-12-30T14:00:36").map (·.2) = some 4989823236000000 ∧
+    (CcsdsDate.parseText branches "2016-365T14:00:36.0").map (·.2) = some 4989823236000000 ∧
+    (CcsdsDate.parseText branches "2016-12-30t14:0:36.00").map (·.2) = some 4989823236000000 ∧
+    CcsdsDate.parseText branches "2016-12-30 14:00:36" = none ∧ CcsdsDate.parseText branches "2016-02-30T14:00:36" = none := by
   decide
 
-/-- non-vacuity of the label quantifier: two different labels, one instant -/
-example : (changeScale (fun l => if l = 0 then 0 else -35000000) ⟨10, 1⟩ 0).inst = 10 := by decide
+/-! ## CCSDS: writing, then reading -/
+
+/-- **an epoch labelled like the message's TIME_SYSTEM reads back as the same instant** (UTC, TAI, TT, GPS; whole
+microseconds).
+
+Full statement (property text): *every* epoch of a message — the state's, a maneuver's, an ephemeris point's, a
+covariance's — reads back as the instant that was written, whatever its label.  False of the code for an epoch whose
+label differs from the label of the date that decides TIME_SYSTEM: the writers emit each epoch's own-scale clock reading
+(`Message.dump`), the readers construct every epoch in TIME_SYSTEM (`load`); see `Witness/C04.lean:
+ccsds_mixed_label_moves_instant` (open finding `ccsds-mixed-scale-epochs`).  Proved here: the case of equal labels. -/
+theorem ccsds_epoch_roundtrip_partial {env : Env} {x y : Date} (hx : WF cfg env x) (hsc : x.scale ∈ uniformIx)
+    (hus : x.s % 10 = 0) (htai : x.eop.taiUtc % 10 = 0)
+    (h : ofDatetime cfg env x.scale (CcsdsDate.written x) = .ok y) (hl : y.eop.taiUtc = x.eop.taiUtc) :
+    y.inst = x.inst ∧ y.scale = x.scale := by
+  obtain ⟨hw, hs, hi⟩ := ofDatetime_spec h
+  have ho := uniform_off_eq hx hw hs hsc hl
+  have e1 := roundUs_exact hus
+  have e2 := roundUs_exact (uniform_off_us hx hsc htai)
+  refine ⟨?_, hs⟩
+  simp only [CcsdsDate.written, Date.datetime, Date.datetimeRef, Date.inst, D, DUS] at *
+  omega
+
+/-- a whole message whose epochs all carry the head's label: every epoch reads back in that label -/
+theorem ccsds_message_labels (env : Env) (m : CcsdsDate.Message) :
+    ∀ r ∈ CcsdsDate.load cfg env m.dump, ∀ y, r = .ok y → y.scale = m.head.scale := by
+  intro r hr y hy
+  simp only [CcsdsDate.load, CcsdsDate.Message.dump, List.mem_map] at hr
+  obtain ⟨us, _, rfl⟩ := hr
+  exact (ofDatetime_spec hy).2.1
+
+/-! ## non-vacuity: the hypotheses are met by concrete dates (C03's small database `envEx`)
+
+2015-03-04T00:00:10 TAI = 2015-03-03T23:59:35 UTC: own-scale day 57085, UTC day 57084. Adding 60 s stays in the TAI day
+and crosses UTC midnight: the sum carries the record of day 57085, the operand that of day 57084. -/
+
+def xTai : Date := ⟨57085, 100000000, 0, ix "TAI", ⟨350000000, -5341468⟩⟩
+def xUtc : Date := ⟨57085, 100000000, 350000000, ix "UTC", ⟨350000000, -5341468⟩⟩
+def yTai : Date := ⟨57085, 700000000, 0, ix "TAI", ⟨350000000, -5351835⟩⟩
+def yUtc : Date := ⟨57085, 700000000, 350000000, ix "UTC", ⟨350000000, -5351835⟩⟩
+
+example : okOf (ofDatetime cfg envEx (ix "TAI") 4932144010000000) = some xTai ∧
+    okOf (changeScale cfg envEx xTai (ix "UTC")) = some xUtc ∧
+    okOf (add cfg envEx xTai 60000000) = some yTai ∧ okOf (add cfg envEx xUtc 60000000) = some yUtc ∧
+    okOf (changeScale cfg envEx yTai (ix "UTC")) = some yUtc := by decide
+
+example : WF cfg envEx xTai := (ofDatetime_spec (cfg := cfg) (env := envEx) (sc := ix "TAI") (us := 4932144010000000) (x := xTai) (by decide)).1
+
+/-- the hypotheses of `add_function_of_instant` for `xTai`, `xUtc`, `t = 60 s`; the conclusion is visible: same instant,
+same record — that of the sum's UTC day, not the operand's -/
+example : xTai.scale ∈ uniformIx ∧ xUtc.scale ∈ uniformIx ∧ xTai.inst = xUtc.inst ∧ yTai.inst = xTai.inst + 10 * 60000000 ∧
+    yUtc.inst = yTai.inst ∧ yUtc.eop = yTai.eop ∧ yTai.eop ≠ xTai.eop := by decide
+
+example : Clean envEx xTai.scale (clock xTai + 10 * 60000000) :=
+  ⟨⟨350000000, -5351835⟩, -350000000, ⟨350000000, -5351835⟩, by decide, by decide, by decide, by decide⟩
+
+example : Clean envEx (ix "TAI") (clock xTai) :=
+  ⟨⟨350000000, -5351835⟩, -350000000, ⟨350000000, -5341468⟩, by decide, by decide, by decide, by decide⟩
+
+example : RecOK envEx xTai ∧ RecOK envEx yTai ∧ RecOK envEx xUtc := by
+  refine ⟨?_, ?_, ?_⟩ <;> (unfold RecOK; decide)
+
+example : envEx.leap.Pairwise (fun a b => a.2 ≤ b.2) := by decide
 
 end BeyondVerif.C04
